@@ -127,16 +127,16 @@ def r1_weighted_tensor(ctx):
     ctx.check(ok, "C06.R1", gf, gf.node, "filled value returned together with the weight", "get_filled_value_and_weight no longer returns the filled value with its weight")
 
 
-def r2_roots(ctx):
-    ctx.rule("C06.R2", "mask roots: t weighted by mask.any(features), y weighted by the mask", 3)
+def r2_roots(ctx, rid="C06.R2", title="mask roots: t weighted by mask.any(features), y weighted by the mask"):
+    ctx.rule(rid, title, 3)
     ix = ctx.ix
-    pd_ = ix.func("leaspy.models.mcmc_saem_compatible", "McmcSaemCompatibleModel.put_data_variables", "C06.R2")
+    pd_ = ix.func("leaspy.models.mcmc_saem_compatible", "McmcSaemCompatibleModel.put_data_variables", rid)
     calls = [c for c in ast.walk(pd_.node) if isinstance(c, ast.Call) and U(c.func) == "WeightedTensor"]
     ok = False
     for c in calls:
         if len(c.args) == 2 and U(c.args[0]) == "dataset.timepoints" and U(c.args[1]) in ("dataset.mask.to(torch.bool).any(dim=LVL_FT)", "dataset.mask.to(torch.bool).any(dim=-1)", "dataset.mask.bool().any(dim=LVL_FT)"):
             ok = True
-    ctx.check(ok, "C06.R2", pd_, calls[0] if calls else pd_.node, "time points weighted by `mask.any over the feature axis`",
+    ctx.check(ok, rid, pd_, calls[0] if calls else pd_.node, "time points weighted by `mask.any over the feature axis`",
               "time points are not weighted by `dataset.mask.any(dim=LVL_FT)`: padded visits (or visits with every feature missing) are treated as real visits")
     n = 0
     for f in ix.iter_funcs():
@@ -147,12 +147,12 @@ def r2_roots(ctx):
                     n += 1
                     w = v.args[1] if len(v.args) > 1 else kwarg(v, "weight")
                     if U(v.args[0]) == "dataset.values":
-                        ctx.check(w is not None and U(w) in ("dataset.mask.to(torch.bool)", "dataset.mask.bool()", "dataset.mask"), "C06.R2", f, r, "observations weighted by the dataset mask",
+                        ctx.check(w is not None and U(w) in ("dataset.mask.to(torch.bool)", "dataset.mask.bool()", "dataset.mask"), rid, f, r, "observations weighted by the dataset mask",
                                   f"observations are weighted by `{U(w) if w is not None else 'nothing'}`, not by the dataset mask: missing entries count as observed")
                     else:
-                        ctx.ok("C06.R2", f, r, "event data (no missing-data mask applies; the weight is the censoring indicator)")
+                        ctx.ok(rid, f, r, "event data (no missing-data mask applies; the weight is the censoring indicator)")
     if n < 2:
-        raise AnalysisError("C06.R2", "anchor vanished: observation getters")
+        raise AnalysisError(rid, "anchor vanished: observation getters")
 
 
 def r3_provenance(ctx):
@@ -321,6 +321,33 @@ def r8_state_stores_data_unchecked(ctx):
                   "take part in it, so an arbitrary fill value changes the outcome (an exception instead of a result)")
 
 
+def r9_lme_drops_missing_visits(ctx):
+    """The mixed-effects benchmark works on numpy arrays, outside the weighted tensors: its personalisation drops the visits whose outcome is
+    missing *together with their ages* before the design matrix is built, so that counts (Z'Z, n) and sums run over observed entries only."""
+    from ..astq import Canon
+    ctx.rule("C06.R9", "LME personalisation: missing outcomes are dropped with their ages before anything is computed from them", 2)
+    LP = "leaspy.algo.personalize.lme_personalize"
+    rn = ctx.ix.func(LP, "LMEPersonalizeAlgorithm._remove_nans", "C06.R9")
+    ctx.analysed(rn)
+    L = Canon(rn.node).lines(False, True)
+    import re as _re
+    text = "; ".join(L)
+    ok = _re.fullmatch(r"\$0 = \$0\.flatten\(\); (%\d+) = ~np\.isnan\(\$0\); \$0 = \$0\[\1\]; \$1 = \$1\[\1\]; return \(\$0, \$1\)", text) is not None
+    ctx.form("C06.R9", rn, rn.node, text, {text} if ok else set(), ["np.isnan($0)", "$0[", "$1["], "_remove_nans keeps the entries (and ages) where the outcome is not NaN",
+             "_remove_nans no longer drops the missing outcomes together with their ages", construct="_remove_nans")
+    f = ctx.ix.func(LP, "LMEPersonalizeAlgorithm._get_individual_random_effects_and_residuals", "C06.R9")
+    ctx.analysed(f)
+    cfg = CFG(f.node)
+    drops = [n for n, st in cfg.stmt.items() if isinstance(st, ast.Assign) and isinstance(st.value, ast.Call) and U(st.value.func).endswith("._remove_nans")
+             and isinstance(st.targets[0], ast.Tuple) and [U(t) for t in st.targets[0].elts] == [U(a) for a in st.value.args]]
+    params = [a.arg for a in f.node.args.args]
+    uses = [n for n, st in cfg.stmt.items() if st is not None and n not in drops and any(isinstance(x, ast.Name) and x.id in params[2:] and isinstance(x.ctx, ast.Load) for x in header_walk(st))]
+    ok = bool(drops) and all(cfg.all_paths_pass(cfg.entry, drops, end=u) for u in uses)
+    ctx.check(ok, "C06.R9", f, cfg.stmt[drops[0]] if drops else f.node, "`values, times = _remove_nans(values, times)` before any use of the subject's values or ages",
+              "the subject's values / ages are used without having gone through `_remove_nans` first: visits without an outcome enter the design matrix and the counts, "
+              "so the random effects depend on how many outcome-less visits the subject has", construct="missing visits dropped first")
+
+
 def rules(ctx):
     r8_state_stores_data_unchecked(ctx)
     r1_weighted_tensor(ctx)
@@ -329,6 +356,7 @@ def rules(ctx):
     r2_roots(ctx)
     r3_provenance(ctx)
     r4_counts(ctx)
+    r9_lme_drops_missing_visits(ctx)
     # the root of every mask: Dataset builds `mask` = (padding mask) * (not-NaN) on the rows it fills, zero-fills the NaNs afterwards and
     # restores them from the mask when values are read back (same rule as the Dataset part of C14.R3, decided on the same code)
     from .c14 import r3b_dataset_mask
